@@ -16,6 +16,18 @@ from vf.specfun_k import HP, RG, Custom, dyadic, near_int, near_half_int, near_n
 from vf.catalog import R, C, I, raw_from_float, canon, raw_rand
 
 PROP = 'C22'
+
+
+def KEYMAP(key):
+    """Known-finding granularity for C22 is (function, failure kind) instead of the ~500 argument cells: a 22-seed sweep of the
+    unchanged tree kept producing genuine failures in new cells of the same functions (hyp2f1/hyp3f2/hyp2f0/hyper2d/appellf1 in
+    degenerate parameter cells, orthogonal polynomials at special points, parabolic cylinder functions), i.e. the defects are
+    per-function weaknesses, not per-cell accidents.  The cell stays in the witness as `fine_key`; a failure worse than the
+    recorded ceiling of its (function, kind) is still reported as new."""
+    parts = key.split('/')
+    last = parts[-1]
+    kind = last if (last.startswith('raises-') or last == 'non-finite-result') else 'accuracy'
+    return 'C22/%s/%s' % (parts[1], kind)
 LEVEL = 'exploration'
 NEEDS_REF = True
 RULE = ('stratified cells (function x parameter/argument regime fixed a priori, label = mechanism key) x precision list; '
